@@ -65,17 +65,26 @@ func runTree(c *Case) *Obs {
 	}
 	var compare func(a, b int) int
 	var less func(a, b int) bool
+	// while a "getcost" lookup runs, every comparator call records its two arguments (per-level cost)
+	var recording bool
+	var recorded [][2]int
+	rec := func(a, b int) {
+		calls++
+		if recording {
+			recorded = append(recorded, [2]int{a, b})
+		}
+	}
 	switch mode {
 	case 0:
-		compare = func(a, b int) int { calls++; return stretch(cmp3(a, b)) }
+		compare = func(a, b int) int { rec(a, b); return stretch(cmp3(a, b)) }
 	case 1:
-		compare = func(a, b int) int { calls++; return stretch(cmp3(b, a)) }
+		compare = func(a, b int) int { rec(a, b); return stretch(cmp3(b, a)) }
 	case 2:
-		compare = func(a, b int) int { calls++; return stretch(floorDiv4(a) - floorDiv4(b)) }
+		compare = func(a, b int) int { rec(a, b); return stretch(floorDiv4(a) - floorDiv4(b)) }
 	case 3:
-		less = func(a, b int) bool { calls++; return a < b }
+		less = func(a, b int) bool { rec(a, b); return a < b }
 	case 4:
-		less = func(a, b int) bool { calls++; return floorDiv4(a) < floorDiv4(b) }
+		less = func(a, b int) bool { rec(a, b); return floorDiv4(a) < floorDiv4(b) }
 	}
 	var m tree.Map[int, int]
 	var s tree.Set[int]
@@ -127,12 +136,50 @@ func runTree(c *Case) *Obs {
 				res = []any{"int", m.Get(num(op[1]))}
 			case "getcost":
 				before := calls
+				probe := num(op[1])
+				recording, recorded = true, nil
 				if isSet {
-					s.Contains(num(op[1]))
+					s.Contains(probe)
 				} else {
-					m.Get(num(op[1]))
+					m.Get(probe)
 				}
-				res = []any{"int", calls - before}
+				recording = false
+				// comparator calls per LEVEL: every call involves one stored key; the shape export says on which
+				// level that key lives (stored keys are pairwise different ints)
+				var shape []int
+				if isSet {
+					shape = s.VerifMap().VerifShape(func(k int) int { return k })
+				} else {
+					shape = m.VerifShape(func(k int) int { return k })
+				}
+				depthOf := map[int]int{}
+				for i := 0; i+1 < len(shape); {
+					d, n := shape[i], shape[i+1]
+					for j := 0; j < n; j++ {
+						depthOf[shape[i+2+j]] = d
+					}
+					i += 2 + n
+				}
+				perLevel := map[int]int{}
+				unknown := 0
+				for _, ab := range recorded {
+					stored := ab[1]
+					if _, ok := depthOf[stored]; !ok || (stored == probe && ab[0] != probe) {
+						stored = ab[0]
+					}
+					if d, ok := depthOf[stored]; ok {
+						perLevel[d]++
+					} else {
+						unknown++
+					}
+				}
+				worst := 0
+				for _, c := range perLevel {
+					if c > worst {
+						worst = c
+					}
+				}
+				res = []any{"int", calls - before, worst, unknown}
 			case "contains":
 				if isSet {
 					res = []any{"bool", s.Contains(num(op[1]))}
